@@ -211,10 +211,25 @@ func (s *Service) Message(ctx context.Context, duty *synccommitteemessenger.Duty
 		return msgs, nil
 	}
 
-	sigs, err := s.contributions(ctx, accounts, s.chainTimeService.SlotToEpoch(duty.Slot()), *beaconBlockRoot)
+	// Only ask for signatures for the accounts we have; a missing account must not stop the others from signing.
+	activeAccounts := make([]e2wtypes.Account, 0, countActive)
+	activeIndices := make([]int, 0, countActive)
+	for i := range accounts {
+		if accounts[i] != nil {
+			activeAccounts = append(activeAccounts, accounts[i])
+			activeIndices = append(activeIndices, i)
+		}
+	}
+	activeSigs, err := s.contributions(ctx, activeAccounts, s.chainTimeService.SlotToEpoch(duty.Slot()), *beaconBlockRoot)
 	if err != nil {
 		s.log.Error().Err(err).Msg("Failed to sign sync committee messages")
 		return nil, errors.Wrap(err, "failed to sign sync committee messages")
+	}
+	sigs := make([]phase0.BLSSignature, len(accounts))
+	for i := range activeSigs {
+		if i < len(activeIndices) {
+			sigs[activeIndices[i]] = activeSigs[i]
+		}
 	}
 
 	for i, account := range accounts {
@@ -227,7 +242,8 @@ func (s *Service) Message(ctx context.Context, duty *synccommitteemessenger.Duty
 				Uint64("slot", uint64(duty.Slot())).
 				Uint64("validator_index", uint64(validatorIndices[i])).
 				Msg("Failed to sign sync committee message; received zero signature")
-			return nil, errors.New("failed to sign sync committee message; received zero signature")
+			// Carry on regardless, so that the other validators' messages are still sent.
+			continue
 		}
 		s.log.Trace().
 			Uint64("slot", uint64(duty.Slot())).
@@ -242,6 +258,11 @@ func (s *Service) Message(ctx context.Context, duty *synccommitteemessenger.Duty
 			Signature:       signature,
 		}
 		msgs = append(msgs, msg)
+	}
+
+	if len(msgs) == 0 {
+		monitorSyncCommitteeMessagesCompleted(started, duty.Slot(), len(duty.ValidatorIndices()), "failed", startOfSlot)
+		return nil, errors.New("failed to sign sync committee messages; received no signatures")
 	}
 
 	if err := s.syncCommitteeMessagesSubmitter.SubmitSyncCommitteeMessages(ctx, msgs); err != nil {
